@@ -1,5 +1,33 @@
-import Driver.Proto
-/-! C10 handler (not implemented yet). -/
+import Driver.C12
+import ThunderModel.Sql.BatchQuery
+/-! C10 handler: rows of a query alone and of the same query inside a batch. -/
+open Lean TM.Sql.Batch TM.Sql.Limit
+
 namespace Driver.C10
-def handle : Handler := fun _ => throw "C10: no model yet"
+
+def decRow (j : Json) : Except String Row := do
+  let a ← j.getArr?
+  a.toList.mapM fun kv => do
+    let p ← kv.getArr?
+    let k ← (p[0]?.getD Json.null).getNat?
+    let v ← match p[1]?.getD Json.null with
+      | .null => pure none
+      | x => do pure (some (← x.getInt?))
+    pure (k, v)
+
+def encRow (r : Row) : Json :=
+  Json.arr (r.map fun (k, v) => Json.arr #[(k : Json), match v with | some x => (x : Json) | none => Json.null]).toArray
+
+def handle : Handler := fun req => do
+  let op ← str req "op"
+  match op with
+  | "batch" =>
+    let fs ← listOf Driver.C12.decKVs (← field req "filters")
+    let table ← listOf decRow (← field req "table")
+    pure <| Json.mkObj [
+      ("alone", Json.arr (fs.map fun f => Json.arr ((alone f table).map encRow).toArray).toArray),
+      ("batched", Json.arr (fs.map fun f => Json.arr ((dispatched fs table f).map encRow).toArray).toArray),
+      ("old", Json.arr (fs.map fun f => Json.arr ((dispatchedOld (fun _ => 0) fs table f).map encRow).toArray).toArray)]
+  | _ => throw s!"C10: unknown op {op}"
+
 end Driver.C10
